@@ -2,7 +2,9 @@
   C09 driver: recomputes every statistic LocalNetwork reports from the inputs of its formula
   (as printed by harness/c09_stats.cpp) with the model executed at Float.  The regenerated
   definitions (Gama/Gen/StatsGen.lean) are the ones executed; Props/C09.lean proves they equal
-  the reference model.
+  the reference model.  A line prefixed with `ref` is evaluated with the hand-written reference
+  model (Gama/Model/Stats.lean) instead: tools/props/c09.py uses the pair to locate an argument
+  where a regenerated formula left the reference (grid over the guard boundaries).
 -/
 import Gama.Proto
 import Gama.Model.Stats
@@ -19,17 +21,74 @@ def exc (r : Except String Float) (k : Float → String) : String :=
   | .ok v => k v
   | .error e => "throw " ++ e
 
-def step (_ : Unit) (line : String) : Unit × String :=
-  let out : String :=
-    match tokens line with
+/-- the formulas, either regenerated from the C++ or the reference -/
+structure Impl where
+  dof : Int → Int → Int → Int
+  m0 : Stats.SigmaAct → Float → Float → Int → Except String Float
+  m0Apost : Float → Int → Float
+  conf : (Float → Float) → (Float → Int → Float) → Stats.SigmaAct → Float → Int → Except String Float
+  unk : Float → Float → Float
+  weight : Float → Float → Float
+  sigmaL : Float → Float → Float → Float → Float
+  wcoef : Float → Float → Float
+  stdevRes : Float → Float → Float
+  stud : Float → Float → Float
+  control : Float → Float
+  ell : Float → Float → Float → Float → Float × Float × Float
+  cov : Float → Float → Float
+  accept : Float → Bool
+  xmlApost : Float → Int → Float
+  xmlRatio : Float → Float → Int → Float
+  err : Float → Float → Float → Float × Float
+
+def genImpl : Impl where
+  dof := StatsGen.degreesOfFreedom
+  m0 := StatsGen.m0
+  m0Apost := StatsGen.m0Aposteriori
+  conf := StatsGen.confIntCoef
+  unk := StatsGen.unknownStdev
+  weight := StatsGen.weightObs
+  sigmaL := StatsGen.sigmaL
+  wcoef := StatsGen.wcoefRes
+  stdevRes := StatsGen.stdevRes
+  stud := StatsGen.studentizedResidual
+  control := StatsGen.obsControl
+  ell := StatsGen.stdErrorEllipse
+  cov := StatsGen.covEntry
+  accept := StatsGen.confPrAccepted
+  xmlApost := StatsGen.xmlAposteriori
+  xmlRatio := StatsGen.xmlRatio
+  err := StatsGen.errObsAdj
+
+def refImpl : Impl where
+  dof := Stats.degreesOfFreedom
+  m0 := fun a s p d => .ok (Stats.m0 a s p d)
+  m0Apost := Stats.m0Aposteriori
+  conf := fun n t a c d => .ok (Stats.confIntCoef n t a c d)
+  unk := Stats.unknownStdev
+  weight := Stats.weightObs
+  sigmaL := Stats.sigmaL
+  wcoef := Stats.wcoefRes
+  stdevRes := Stats.stdevRes
+  stud := Stats.studentizedResidual
+  control := Stats.obsControl
+  ell := Stats.stdErrorEllipse
+  cov := Stats.covEntry
+  accept := Stats.confPrAccepted
+  xmlApost := Stats.xmlAposteriori
+  xmlRatio := Stats.xmlRatio
+  err := Stats.errObsAdj
+
+def eval (I : Impl) (toks : List String) : String :=
+    match toks with
     | ["dof", r, c, d] =>
       match r.toInt?, c.toInt?, d.toInt? with
-      | some r, some c, some d => s!"int {StatsGen.degreesOfFreedom r c d}"
+      | some r, some c, some d => s!"int {I.dof r c d}"
       | _, _, _ => "bad-op"
     | ["m0", a, sapr, phi, dof] =>
       match act? a, float? sapr, float? phi, dof.toInt? with
       | some a, some sapr, some phi, some dof =>
-        exc (StatsGen.m0 a sapr phi dof) (fun v => okF [v, StatsGen.m0Aposteriori phi dof])
+        exc (I.m0 a sapr phi dof) (fun v => okF [v, I.m0Apost phi dof])
       | _, _, _, _ => "bad-op"
     | ["conf", a, cp, dof, p, nv, sv] =>
       match act? a, float? cp, dof.toInt?, float? p, float? nv, float? sv with
@@ -39,36 +98,49 @@ def step (_ : Unit) (line : String) : Unit × String :=
         let nan : Float := 0.0 / 0.0
         let normal : Float → Float := fun x => if x == p then nv else nan
         let student : Float → Int → Float := fun x n => if x == p && n == dof then sv else nan
-        exc (StatsGen.confIntCoef normal student a cp dof) (fun v => okF [v])
+        exc (I.conf normal student a cp dof) (fun v => okF [v])
       | _, _, _, _, _, _ => "bad-op"
     | ["unk", m, q] =>
       match float? m, float? q with
-      | some m, some q => okF [StatsGen.unknownStdev m q]
+      | some m, some q => okF [I.unk m q]
       | _, _ => "bad-op"
     | ["obs", m, sapr, qbb, sd, r] =>
       match float? m, float? sapr, float? qbb, float? sd, float? r with
       | some m, some sapr, some qbb, some sd, some r =>
-        let w := StatsGen.weightObs sapr sd
-        let qvv := StatsGen.wcoefRes qbb w
-        let sr := StatsGen.stdevRes m qvv
-        okF [w, StatsGen.sigmaL m sapr qbb sd, qvv, sr, StatsGen.studentizedResidual sr r,
-             StatsGen.obsControl qbb]
+        let w := I.weight sapr sd
+        let qvv := I.wcoef qbb w
+        let sr := I.stdevRes m qvv
+        okF [w, I.sigmaL m sapr qbb sd, qvv, sr, I.stud sr r, I.control qbb]
       | _, _, _, _, _ => "bad-op"
     | ["ell", cyy, cyx, cxx, m] =>
       match float? cyy, float? cyx, float? cxx, float? m with
       | some cyy, some cyx, some cxx, some m =>
-        let (a, b, al) := StatsGen.stdErrorEllipse cyy cyx cxx m
+        let (a, b, al) := I.ell cyy cyx cxx m
         okF [a, b, al]
       | _, _, _, _ => "bad-op"
     | ["cov", m, q] =>
       match float? m, float? q with
-      | some m, some q => okF [StatsGen.covEntry m q]
+      | some m, some q => okF [I.cov m q]
       | _, _ => "bad-op"
+    | ["xml", phi, sapr, dof] =>
+      match float? phi, float? sapr, dof.toInt? with
+      | some phi, some sapr, some dof => okF [I.xmlApost phi dof, I.xmlRatio phi sapr dof]
+      | _, _, _ => "bad-op"
+    | ["err", v, qvv, w] =>
+      match float? v, float? qvv, float? w with
+      | some v, some qvv, some w =>
+        let (em, ev) := I.err v qvv w
+        okF [em, ev]
+      | _, _, _ => "bad-op"
     | ["accept", p] =>
       match float? p with
-      | some p => s!"flag {if StatsGen.confPrAccepted p then 1 else 0}"
+      | some p => s!"flag {if I.accept p then 1 else 0}"
       | none => "bad-op"
     | _ => "bad-op"
-  ((), out)
+
+def step (_ : Unit) (line : String) : Unit × String :=
+  match tokens line with
+  | "ref" :: rest => ((), eval refImpl rest)
+  | toks => ((), eval genImpl toks)
 
 def main : IO Unit := loop step ()
